@@ -2,3 +2,5 @@ import PulserModel.Basic
 import PulserModel.Schedule
 import PulserModel.PhaseRef
 import PulserModel.Sequence
+import PulserModel.Layout
+import PulserModel.Geometry
